@@ -59,15 +59,24 @@ VARIABLES l,        \* line being processed
           ncomp,    \* completions so far in this file (mode "fixed")
           fed, deliv,
           mode, minimal, c1, nxt, fin,
-          lostSeen  \* a packet that was serialized but never handed out has been passed in this run
+          lostSeen, \* a packet that was serialized but never handed out has been passed in this run
+          tx        \* the library serializer's header memory as the transcribed policy (LibCsid / LibFmt) predicts it
 
-vars == <<l, cur, rx, pm, pdone, woff, ncomp, fed, deliv, mode, minimal, c1, nxt, fin, lostSeen>>
+vars == <<l, cur, rx, pm, pdone, woff, ncomp, fed, deliv, mode, minimal, c1, nxt, fin, lostSeen, tx>>
 
 Ev == Rec[l]
 
 Init == /\ l = 1 /\ cur = Start /\ rx = RxInit(128) /\ pm = NoFn /\ pdone = 0 /\ woff = 0
         /\ ncomp = 0 /\ fed = 0 /\ deliv = 0 /\ mode = "fixed" /\ minimal = TRUE /\ c1 = 0
-        /\ nxt = NRec + 1 /\ fin = FALSE /\ lostSeen = FALSE
+        /\ nxt = NRec + 1 /\ fin = FALSE /\ lostSeen = FALSE /\ tx = NoFn
+
+\* ---- STRICT / drift diagnostics: is the library still following the compression policy that MC_Chunk's
+\* "lib" configuration model-checks?  (class DRIFT: reported as spec_drift, never a violation)
+SerMsg == [ty |-> Ev.ty, msid |-> Ev.msid, ts |-> Ev.ts, len |-> Ev.len]
+PolicyCsid == LibCsid(Ev.ty)
+PolicyFmt == LibFmt(tx, SerMsg, PolicyCsid, Ev.fu)
+TxAfter == IF IsWire(l) /\ Ev.ev = "Ser" /\ Ev.res = "ok" /\ Ev.len <= 16777215
+           THEN Upd(tx, PolicyCsid, TxHdr(tx, SerMsg, PolicyCsid, PolicyFmt, Ev.cd)) ELSE tx
 
 \* abandon the run with a verdict
 Fail(class, why) ==
@@ -75,10 +84,11 @@ Fail(class, why) ==
                 \o (IF lostSeen THEN " [after a packet serialized in a failed call was discarded]" ELSE "")
                 \o "|" \o ToString(l))
     /\ l' = nxt /\ cur' = Start /\ pdone' = 0
-    /\ UNCHANGED <<rx, pm, woff, ncomp, fed, deliv, mode, minimal, c1, nxt, fin, lostSeen>>
+    /\ UNCHANGED <<rx, pm, woff, ncomp, fed, deliv, mode, minimal, c1, nxt, fin, lostSeen, tx>>
 
 Skip == /\ l' = l + 1 /\ cur' = Start /\ pdone' = 0
         /\ lostSeen' = (lostSeen \/ (IsWire(l) /\ Ev.omit /\ "lost" \in DOMAIN Ev))
+        /\ tx' = TxAfter
         /\ UNCHANGED <<rx, pm, woff, ncomp, fed, deliv, mode, minimal, c1, nxt, fin>>
 
 DoReset ==
@@ -87,7 +97,7 @@ DoReset ==
     /\ mode' = Ev.mode /\ minimal' = Ev.minimal /\ c1' = Ev.c1 /\ nxt' = Ev.next
     /\ ncomp' = IF Ev.mode = "fixed" THEN Ev.c0 ELSE ncomp
     /\ deliv' = IF Ev.mode = "fixed" THEN Ev.c0 ELSE deliv
-    /\ lostSeen' = FALSE
+    /\ lostSeen' = FALSE /\ tx' = NoFn
     /\ UNCHANGED fin
 
 MaxLen == 16777215
@@ -114,6 +124,7 @@ FinishEvent ==
     ELSE /\ l' = l + 1 /\ cur' = Start /\ pdone' = 0
          /\ woff' = woff + BLen(B)
          /\ ncomp' = IF mode = "fixed" THEN ncomp + pdone ELSE ncomp
+         /\ tx' = TxAfter
          /\ UNCHANGED <<rx, pm, fed, deliv, mode, minimal, c1, nxt, fin, lostSeen>>
 
 OneChunk ==
@@ -149,11 +160,15 @@ OneChunk ==
               ELSE rx.cs
     IN
     IF sz = 0 THEN Fail(WClass, "chunk size 0 announced")
-    ELSE /\ rx' = [r.st EXCEPT !.cs = sz]
+    ELSE /\ IF Ev.ev = "Ser" /\ r.first /\ Ev.api # "sess-unknown" /\ (ch.csid # PolicyCsid \/ ch.fmt # PolicyFmt)
+            THEN PrintT("@@VERDICT|DRIFT|library chose csid/format " \o ToString(<<ch.csid, ch.fmt>>) \o " where the transcribed policy predicts "
+                        \o ToString(<<PolicyCsid, PolicyFmt>>) \o "|" \o ToString(l))
+            ELSE TRUE
+         /\ rx' = [r.st EXCEPT !.cs = sz]
          /\ pm' = IF fin1 THEN Del(pm, c) ELSE Upd(pm, c, ml)
          /\ cur' = p.after
          /\ pdone' = IF fin1 THEN pdone + 1 ELSE pdone
-         /\ UNCHANGED <<l, woff, ncomp, fed, deliv, mode, minimal, c1, nxt, fin, lostSeen>>
+         /\ UNCHANGED <<l, woff, ncomp, fed, deliv, mode, minimal, c1, nxt, fin, lostSeen, tx>>
 
 Process ==
     IF Ev.ev = "Ser" /\ Ev.res # "ok"
@@ -172,6 +187,7 @@ Process ==
          ELSE /\ l' = l + 1 /\ cur' = Start /\ pdone' = 0
               /\ woff' = woff + BLen(Ev.bytes)
               /\ ncomp' = IF Ev.done THEN ncomp + 1 ELSE ncomp
+              /\ tx' = TxAfter
               /\ UNCHANGED <<rx, pm, fed, deliv, mode, minimal, c1, nxt, fin, lostSeen>>
     ELSE IF cur[3] = BLen(Ev.bytes) THEN FinishEvent
     ELSE OneChunk
@@ -210,7 +226,7 @@ DoFeed ==
     ELSE IF deliv + k < c1 /\ Rec[Comp[deliv + k + 1]].end <= f2
          THEN Fail("DES", "message not returned by the call that delivered its last byte")
     ELSE /\ fed' = f2 /\ deliv' = deliv + k /\ l' = l + 1
-         /\ UNCHANGED <<cur, rx, pm, pdone, woff, ncomp, mode, minimal, c1, nxt, fin, lostSeen>>
+         /\ UNCHANGED <<cur, rx, pm, pdone, woff, ncomp, mode, minimal, c1, nxt, fin, lostSeen, tx>>
 
 DoEnd ==
     IF mode = "fixed" /\ ncomp # c1 THEN Fail("TOOL", "logged completion count disagrees with the reference receiver")
@@ -226,7 +242,7 @@ Step ==
          [] Ev.ev = "Feed" -> DoFeed
          [] Ev.ev = "End" -> DoEnd
 
-Finish == /\ l = NRec + 1 /\ ~fin /\ fin' = TRUE /\ UNCHANGED lostSeen
+Finish == /\ l = NRec + 1 /\ ~fin /\ fin' = TRUE /\ UNCHANGED <<lostSeen, tx>>
           /\ PrintT("@@ACCEPT|" \o ToString(NRec) \o "|" \o ToString(NComp))
           /\ UNCHANGED <<l, cur, rx, pm, pdone, woff, ncomp, fed, deliv, mode, minimal, c1, nxt>>
 
